@@ -431,6 +431,58 @@ func main() {
 		}
 		b.WriteString("]\n\n")
 	}
+	// the supplied read-only failure function (vfs/failfs/failfs_func.go): which function ids it refuses
+	{
+		f, err := parser.ParseFile(fset, filepath.Join(repo, "vfs/failfs/failfs_func.go"), nil, 0)
+		if err != nil {
+			fmt.Fprintln(os.Stderr, err)
+			os.Exit(1)
+		}
+		var refuses []string
+		openGuard, defaultNil, shapeOK := "", false, false
+		for _, d := range f.Decls {
+			fd, ok := d.(*ast.FuncDecl)
+			if !ok || fd.Recv != nil || fd.Name.Name != "ReadOnlyFunc" || len(fd.Body.List) != 1 {
+				continue
+			}
+			sw, ok := fd.Body.List[0].(*ast.SwitchStmt)
+			if !ok || sw.Init != nil || src(sw.Tag) != "fn" {
+				continue
+			}
+			shapeOK = true
+			for _, c := range sw.Body.List {
+				cc := c.(*ast.CaseClause)
+				// a clause refuses when it is one return statement of a non-nil error value
+				refusal := false
+				if len(cc.Body) == 1 {
+					if r, ok := cc.Body[0].(*ast.ReturnStmt); ok && len(r.Results) == 1 {
+						if _, isLit := r.Results[0].(*ast.UnaryExpr); isLit {
+							refusal = true
+						} else if src(r.Results[0]) == "nil" && cc.List == nil {
+							defaultNil = true
+						}
+					}
+				}
+				for _, e := range cc.List {
+					id := strings.TrimPrefix(src(e), "avfs.")
+					if id == "FnOpenFile" {
+						var parts []string
+						for _, st := range cc.Body {
+							parts = append(parts, strings.Join(strings.Fields(src(st)), " "))
+						}
+						openGuard = strings.Join(parts, " | ")
+					} else if refusal {
+						refuses = append(refuses, id)
+					} else {
+						shapeOK = false
+					}
+				}
+			}
+		}
+		sort.Strings(refuses)
+		fmt.Fprintf(&b, "def readOnlyFuncRefuses : List String := %s\n\ndef readOnlyFuncOpenFile : String := %s\n\ndef readOnlyFuncDefaultNil : Bool := %v\n\ndef readOnlyFuncShapeOK : Bool := %v\n\n",
+			llist(refuses), lstr(openGuard), defaultNil, shapeOK)
+	}
 	b.WriteString("end Avfs.Generated\n")
 	old, _ := os.ReadFile(out)
 	if string(old) != b.String() {
